@@ -435,6 +435,12 @@ func (n *Node) teardown() error {
 	return lastErr
 }
 
+func (n *Node) setLog(log string) {
+	n.mu.Lock()
+	defer n.mu.Unlock()
+	n.data.State.Log = log
+}
+
 func (n *Node) incRetryCount() {
 	n.mu.Lock()
 	defer n.mu.Unlock()
